@@ -611,16 +611,19 @@ Section P.
     2:{ intros x Hx. apply pow2_div; [apply galigns_pow2|apply galign_pow2|]. apply galigns_ge. subst sigs. now apply in_map. }
     rewrite N.sub_diag. cbn [bind]. unfold gstruct_end. autorewrite with gst.
     replace (g_written st + len p + len (concat (gparts e l 0)) - (g_written st + len p)) with (len (concat (gparts e l 0))) by lia.
-    rewrite gvb_struct. fold sigs A. unfold tuple_bytes.
-    rewrite gvb_struct in Hsmall. fold sigs A in Hsmall. unfold tuple_bytes in Hsmall.
+    rewrite gvb_struct. fold sigs A.
+    rewrite gvb_struct in Hsmall. fold sigs A in Hsmall.
     set (ps := gparts e l 0) in *. set (data := concat ps) in *. set (ends := ends_from 0 ps) in *.
     assert (Hlen : length sigs = length ends).
     { subst sigs ends ps. now rewrite map_length, length_ends_from, length_gparts. }
     assert (Hsne : sigs <> []) by (subst sigs; destruct l; [congruence|discriminate]).
-    destruct sigs as [|s0 sr] eqn:Hsigs; [congruence|]. rewrite <- Hsigs in *.
+    assert (Htb : forall al pss, tuple_bytes al sigs pss =
+               if forallb gis_fixed sigs then concat pss ++ pad (len (concat pss)) al
+               else concat pss ++ framing (len (concat pss)) (rev (tuple_offsets sigs (ends_from 0 pss)))).
+    { intros al pss. unfold tuple_bytes. destruct sigs; [congruence|reflexivity]. }
     assert (Hfin : forall b', gset_dep (gwr (gset_dep (gwr st p) d') b') (g_dep st) = gwr st (p ++ b')).
     { intros b'. autorewrite with gpush. f_equal. destruct st; reflexivity. }
-    rewrite app_nil_r.
+    rewrite app_nil_r. rewrite Htb in Hsmall |- *. fold data ends in Hsmall |- *.
     cbn [node_tail] in Hnt. fold sigs ps data A in Hnt.
     cbn [node_empty_offsets] in Hne. fold sigs ps data ends in Hne.
     destruct (forallb gis_fixed sigs) eqn:Hall.
@@ -634,7 +637,7 @@ Section P.
       + (* nothing written: no offsets are due outside the empty_offsets class *)
         cbn [andb] in Hne. apply negb_false_iff, Nat.eqb_eq in Hne.
         destruct (tuple_offsets sigs ends) eqn:Hto; [|discriminate]. cbn [rev]. unfold framing, offs_enc. cbn [map concat].
-        now rewrite Hfin.
+        now rewrite Hfin, app_nil_r.
       + rewrite (var_ends_split sigs ends Hsne Hlen).
         assert (Hle : last ends 0 = len data).
         { subst ends data. rewrite last_end; [lia|]. subst ps. destruct l; [congruence|discriminate]. }
@@ -646,15 +649,196 @@ Section P.
           { subst ps. apply gparts_last_nonempty; try assumption.
             subst sigs. rewrite (last_map gsig l (GU8 0) SUnit Hl) in Hlastfx. assumption. }
           destruct (rev (tuple_offsets sigs ends)) as [|front rest] eqn:Hrev.
-          -- unfold write_all. rewrite Hfin. unfold framing, offs_enc. reflexivity.
+          -- unfold write_all. rewrite Hfin. unfold framing, offs_enc. cbn [map concat]. now rewrite app_nil_r.
           -- assert (Hin : In front (tuple_offsets sigs ends)).
              { apply in_rev. rewrite Hrev. now left. }
              apply (tuple_offsets_lt sigs ps 0 front) in Hin; [|subst ps; rewrite length_gparts; subst sigs; now rewrite map_length|assumption].
              fold data in Hin. destruct (N.eqb_spec front (len data)) as [Heq|_]; [lia|].
-             rewrite <- Hrev in *. rewrite write_all_framing by assumption. rewrite gwr_gwr. apply f_equal.
-             rewrite <- gwr_gwr. rewrite <- (Hfin data). now rewrite gwr_gwr.
+             rewrite <- Hrev in *. rewrite write_all_framing by assumption. rewrite Hfin, gwr_gwr.
+             now rewrite <- app_assoc.
         * rewrite rev_app_distr. cbn [rev app]. rewrite Hle, N.eqb_refl.
-          rewrite write_all_framing by assumption. rewrite gwr_gwr. apply f_equal.
-          rewrite <- gwr_gwr. rewrite <- (Hfin data). now rewrite gwr_gwr.
+          rewrite write_all_framing by assumption. rewrite Hfin, gwr_gwr. now rewrite <- app_assoc.
+  Qed.
+
+  (* ---------- dicts ---------- *)
+  Definition entry_ok (d : depths) (ks vs : sig) (p : gval * gval) : Prop :=
+    gwf (fst p) = true /\ gwf (snd p) = true /\ gsig (fst p) = ks /\ gsig (snd p) = vs /\
+    pre (fst p) = true /\ pre (snd p) = true /\
+    gdepth_ok (d_struct d) (d_array d) (dtot d) (fst p) = true /\
+    gdepth_ok (d_struct d) (d_array d) (dtot d) (snd p) = true /\
+    (gis_fixed ks && gis_fixed vs = true -> padn (len (concat (entry_parts e vs p))) (N.max (galign ks) (galign vs)) = 0) /\
+    (gis_fixed ks = false -> entry_size_bad (len (concat (entry_parts e vs p))) = false).
+
+  Lemma max_div_l a b : pow2 a -> pow2 b -> N.max a b mod a = 0.
+  Proof. intros Ha Hb. apply pow2_div; [now apply pow2_max|assumption|lia]. Qed.
+  Lemma max_div_r a b : pow2 a -> pow2 b -> N.max a b mod b = 0.
+  Proof. intros Ha Hb. apply pow2_div; [now apply pow2_max|assumption|lia]. Qed.
+
+  (* the format's encoding of one dict entry, spelled out *)
+  Lemma entry_tuple ks vs p :
+    tuple_bytes (N.max (galign ks) (galign vs)) [ks; vs] (entry_parts e vs p) =
+    let data := concat (entry_parts e vs p) in
+    if gis_fixed ks && gis_fixed vs then data ++ pad (len data) (N.max (galign ks) (galign vs))
+    else data ++ (if gis_fixed ks then [] else le_bytes (N.to_nat (offset_width (len data) 1)) (len (gvb e (fst p)))).
+  Proof.
+    unfold tuple_bytes, entry_parts. cbn [forallb ends_from tuple_offsets]. rewrite andb_true_r.
+    destruct (gis_fixed ks); destruct (gis_fixed vs); cbn [andb app rev]; try reflexivity;
+      unfold framing, offs_enc; cbn [length map concat N.of_nat Pos.of_succ_nat]; rewrite ?app_nil_r, ?N.add_0_l; reflexivity.
+  Qed.
+
+  Lemma entries_ok l : Forall (fun p => good (fst p) /\ good (snd p)) l -> forall st start roffs ks vs kso,
+    g_e st = e -> Forall (entry_ok (g_dep st) ks vs) l ->
+    g_sig st = ks -> g_vsign st = None -> dep_ok (g_dep st) ->
+    start <= g_written st ->
+    (g_pos0 st + start) mod N.max (galign ks) (galign vs) = 0 ->
+    match kso with Some _ => gis_fixed ks = false | None => gis_fixed ks = true end ->
+    ser_entries (map (fun p => (sval_of (fst p), sval_of (snd p))) l) start (N.max (galign ks) (galign vs)) roffs ks vs kso st =
+      Ok (gwr st (concat (geparts e ks vs l (g_written st - start))),
+          match roffs with
+          | Some ro => Some (rev (ends_from (g_written st - start) (geparts e ks vs l (g_written st - start))) ++ ro)
+          | None => None
+          end).
+  Proof.
+    induction 1 as [|[key x] l [Hk Hx] Hl IH]; intros st start roffs ks vs kso He Hok Hs Hv Hd Hst Hal Hkso.
+    - cbn [map ser_entries geparts concat ends_from rev app]. rewrite gwr_nil. destruct roffs; reflexivity.
+    - inversion Hok as [|p0' l0' Hp Hokl Heq1]. clear Hok.
+      destruct Hp as (Hwk & Hwx & Hsk & Hsx & Hpk & Hpx & Hdk & Hdx & Htail & Hkeyw). cbn [fst snd] in *.
+      assert (Hs2 : g_sig st = gsig key) by congruence. clear Hs. rename Hs2 into Hs. subst ks vs.
+      set (al := N.max (galign (gsig key)) (galign (gsig x))) in *.
+      assert (Hpal : pow2 al) by (apply pow2_max; apply galign_pow2).
+      assert (Hal0 : al <> 0) by now apply pow2_nz.
+      cbn [map ser_entries fst snd]. rewrite gpadded_gwr.
+      replace (gabs st) with ((g_pos0 st + start) + (g_written st - start)) by (unfold gabs; lia).
+      rewrite (pad_shift _ _ _ Hal0 Hal).
+      set (off := g_written st - start). set (p0 := pad off al).
+      assert (HE : gabs (gwr st p0) mod al = 0).
+      { autorewrite with gst. replace (gabs st) with ((g_pos0 st + start) + off) by (unfold gabs; subst off; lia).
+        subst p0. rewrite len_pad. rewrite <- N.add_assoc. rewrite N.add_mod by assumption. rewrite Hal, N.add_0_l, N.mod_mod by assumption.
+        apply padn_after. assumption. }
+      (* the key *)
+      rewrite (Hk (gwr st p0)); autorewrite with gst; try assumption; try reflexivity.
+      cbn [bind].
+      assert (HEk : gabs (gwr st p0) mod galign (gsig key) = 0).
+      { apply (mod_trans _ al); try assumption; [apply galign_nz|]. apply max_div_l; apply galign_pow2. }
+      autorewrite with gst in HEk. rewrite (pad_aligned _ _ (galign_nz _) HEk). cbn [app].
+      set (kb := gvb e key).
+      (* the value *)
+      unfold ser_entry_tail. autorewrite with gst.
+      rewrite (Hx (gset_sig (gwr (gwr st p0) kb) (gsig x))); autorewrite with gst; try assumption; try reflexivity.
+      cbn [bind].
+      assert (HEv : (gabs st + len p0) mod galign (gsig x) = 0).
+      { autorewrite with gst in HE. apply (mod_trans _ al); try assumption; [apply galign_nz|]. apply max_div_r; apply galign_pow2. }
+      rewrite (pad_shift _ _ _ (galign_nz _) HEv).
+      set (vb := pad (len kb) (galign (gsig x)) ++ gvb e x).
+      assert (Hcat : concat (entry_parts e (gsig x) (key, x)) = kb ++ vb).
+      { unfold entry_parts. cbn [fst snd concat]. now rewrite app_nil_r. }
+      pose proof (entry_tuple (gsig key) (gsig x) (key, x)) as Het. cbv zeta in Het. rewrite Hcat in Het. cbn [fst] in Het. fold al kb in Het.
+      rewrite Hcat in Htail, Hkeyw.
+      assert (Hsame : forall b', gset_sig (gwr (gset_sig (gwr (gwr st p0) kb) (gsig x)) b') (gsig key) = gwr st (p0 ++ kb ++ b')).
+      { intros b'. autorewrite with gpush. rewrite <- app_assoc. f_equal.
+        clear - Hs. destruct st; cbn in *; subst; reflexivity. }
+      rewrite Hsame.
+      destruct kso as [ks0|].
+      + (* variable-size key: its end is stored after the value *)
+        specialize (Hkeyw Hkso). unfold entry_size_bad in Hkeyw.
+        replace (g_written st + len p0 + len kb - (g_written st + len p0)) with (len kb) by lia.
+        autorewrite with gst. rewrite !len_app.
+        replace (g_written st + (len p0 + (len kb + len vb)) - (g_written st + len p0)) with (len kb + len vb) by lia.
+        rewrite len_app in Hkeyw.
+        destruct (for_encoded_container (len kb + len vb)) as [w| |] eqn:Hfe; try discriminate.
+        apply negb_false_iff, N.eqb_eq in Hkeyw. cbn [bind]. rewrite gwr_gwr.
+        rewrite Hkso in Het. cbn [andb] in Het. rewrite len_app in Het. rewrite <- Hkeyw in Het.
+        set (b := p0 ++ tuple_bytes al [gsig key; gsig x] (entry_parts e (gsig x) (key, x))).
+        assert (Hb : (p0 ++ kb ++ vb) ++ offset_bytes w (len kb) = b).
+        { subst b. rewrite Het. unfold offset_bytes. now rewrite <- !app_assoc. }
+        rewrite Hb.
+        unfold al.
+        rewrite (IH (gwr st b) start (push_end (gwr st b) start roffs) (gsig key) (gsig x) (Some (g_written st + len p0)));
+          autorewrite with gst; try assumption; try lia.
+        replace (g_written st + len b - start) with (off + len b) by (subst off; lia).
+        cbn [geparts concat ends_from]. fold al p0 b. rewrite gwr_gwr. f_equal. f_equal.
+        destruct roffs as [ro|]; cbn [push_end]; [|reflexivity]. autorewrite with gst.
+        replace (g_written st + len b - start) with (off + len b) by (subst off; lia).
+        cbn [rev]. now rewrite <- app_assoc.
+      + (* fixed-size key: no offset inside the entry *)
+        cbn [bind].
+        rewrite Hkso in Het. cbn [andb] in Het.
+        set (b := p0 ++ tuple_bytes al [gsig key; gsig x] (entry_parts e (gsig x) (key, x))).
+        assert (Hb : p0 ++ kb ++ vb = b).
+        { subst b. rewrite Het. destruct (gis_fixed (gsig x)) eqn:Hfv.
+          - rewrite Hkso in Htail. specialize (Htail eq_refl). unfold pad. rewrite Htail. cbn [zeros repeat N.to_nat].
+            now rewrite !app_nil_r.
+          - now rewrite !app_nil_r. }
+        rewrite Hb.
+        unfold al.
+        rewrite (IH (gwr st b) start (push_end (gwr st b) start roffs) (gsig key) (gsig x) None);
+          autorewrite with gst; try assumption; try lia.
+        replace (g_written st + len b - start) with (off + len b) by (subst off; lia).
+        cbn [geparts concat ends_from]. fold al p0 b. rewrite gwr_gwr. f_equal. f_equal.
+        destruct roffs as [ro|]; cbn [push_end]; [|reflexivity]. autorewrite with gst.
+        replace (g_written st + len b - start) with (off + len b) by (subst off; lia).
+        cbn [rev]. now rewrite <- app_assoc.
+  Qed.
+
+  Lemma good_dict ks vs l : Forall (fun p => good (fst p) /\ good (snd p)) l -> good (GDict ks vs l).
+  Proof.
+    intros HF st He Hw Hp Hs Hv Hd Hf. cbn [sval_of]. rewrite gser_map.
+    pose proof (pre_align _ Hp Hw) as Hal. cbn [gsig] in Hal, Hs |- *.
+    destruct (pre_node _ Hp) as (Hnb & Hnt & Hne & Hnk & Hsmall).
+    cbn [gwf] in Hw. apply andb_true_iff in Hw as [Hw Hwl]. apply andb_true_iff in Hw as [Hkb Hvs].
+    unfold pre in Hp. rewrite all_nodes_dict in Hp. apply andb_true_iff in Hp as [_ Hpl].
+    unfold gfits in Hf. cbn [gdepth_ok] in Hf. apply andb_true_iff in Hf as [Hf Hfl]. apply andb_true_iff in Hf as [Hf1 Hf2].
+    apply N.leb_le in Hf1, Hf2.
+    destruct (inc_array_good _ Hd Hf1 Hf2) as (d' & Hinc & Hdec & Hd' & Hs' & Ha' & Ht').
+    cbn [galign] in *. set (al := N.max (galign ks) (galign vs)) in *.
+    assert (Hal0 : al <> 0) by (apply pow2_nz, pow2_max; apply galign_pow2).
+    unfold gmap_begin. rewrite Hs. unfold gseq_begin. rewrite gpadded_gwr. rewrite Hs, Hal. cbn [bind]. autorewrite with gst.
+    rewrite Hinc. cbn [bind].
+    set (p := pad (gabs st) al).
+    set (st1 := gset_dep (gset_sig (gwr st p) ks) d').
+    rewrite !fixed_sized_spec.
+    assert (Hok : Forall (entry_ok d' ks vs) l).
+    { apply Forall_forall. intros q Hq.
+      rewrite forallb_forall in Hwl, Hpl, Hfl. specialize (Hwl q Hq). specialize (Hpl q Hq). specialize (Hfl q Hq).
+      apply andb_true_iff in Hwl as [Hwl Hq4]. apply andb_true_iff in Hwl as [Hwl Hq3]. apply andb_true_iff in Hwl as [Hq1 Hq2].
+      apply sig_eqb_eq in Hq3, Hq4. apply andb_true_iff in Hpl as [Hq5 Hq6]. apply andb_true_iff in Hfl as [Hq7 Hq8].
+      unfold entry_ok. rewrite Hs', Ha', Ht'. repeat split; try assumption.
+      - intros Hfx. cbn [node_tail] in Hnt. rewrite Hfx in Hnt. cbn [andb] in Hnt.
+        destruct (padn (len (concat (entry_parts e vs q))) al =? 0) eqn:Hz; [now apply N.eqb_eq in Hz|].
+        exfalso. rewrite <- Bool.not_true_iff_false in Hnt. apply Hnt. apply existsb_exists. exists q. split; [assumption|].
+        change (N.max (galign ks) (galign vs)) with al. now rewrite Hz.
+      - intros Hfx. cbn [node_dict_key] in Hnk. rewrite Hfx in Hnk. cbn [negb andb] in Hnk.
+        destruct (entry_size_bad (len (concat (entry_parts e vs q)))) eqn:Hz; [|reflexivity].
+        exfalso. rewrite <- Bool.not_true_iff_false in Hnk. apply Hnk. apply existsb_exists. exists q. split; assumption. }
+    rewrite (entries_ok l HF st1 (g_written st + len p) _ ks vs); subst st1; autorewrite with gst; try assumption; try reflexivity.
+    2:{ replace (g_pos0 st + (g_written st + len p)) with (gabs st + len p) by (unfold gabs; lia).
+        subst p. rewrite len_pad. now apply padn_after. }
+    2:{ destruct (gis_fixed ks); reflexivity. }
+    rewrite N.sub_diag. cbn [bind]. unfold gseq_end. autorewrite with gst. rewrite Hdec.
+    rewrite gvb_dict. cbv zeta. set (ps := geparts e ks vs l 0) in *. set (data := concat ps) in *.
+    rewrite ?fixed_sized_spec.
+    destruct (gis_fixed ks && gis_fixed vs) eqn:Hfx.
+    - rewrite (reframe st _ _ ks d' (SDict ks vs) _ (eq_sym Hs) eq_refl). reflexivity.
+    - rewrite app_nil_r. replace (g_written st + len p + len data - (g_written st + len p)) with (len data) by lia.
+      rewrite gvb_dict in Hsmall. cbv zeta in Hsmall. fold ps data in Hsmall. rewrite Hfx in Hsmall. rewrite len_app in Hsmall.
+      destruct (N.eqb_spec (len data) 0) as [H0|H0].
+      + destruct l as [|q r].
+        * cbn. rewrite (reframe st _ _ ks d' (SDict ks vs) _ (eq_sym Hs) eq_refl). reflexivity.
+        * exfalso. cbn [node_empty_offsets] in Hne. rewrite Hfx in Hne. cbn [negb andb] in Hne.
+          fold ps data in Hne. rewrite H0 in Hne. discriminate.
+      + rewrite frev_involutive.
+        rewrite (reframe st _ _ ks d' (SDict ks vs) _ (eq_sym Hs) eq_refl).
+        rewrite write_all_framing by (apply framing_small; lia).
+        rewrite gwr_gwr. now rewrite <- app_assoc.
+  Qed.
+
+  (* ---------- the serializer theorem ---------- *)
+  Theorem gser_good : forall v, good v.
+  Proof.
+    induction v using gval_ind'.
+    - apply good_u8. - apply good_bool. - apply good_i16. - apply good_u16. - apply good_i32. - apply good_u32.
+    - apply good_i64. - apply good_u64. - apply good_f64. - apply good_str. - apply good_sigv. - apply good_path.
+    - now apply good_variant. - apply good_fd. - now apply good_array. - now apply good_dict. - now apply good_struct.
+    - apply good_nothing. - now apply good_just.
   Qed.
 End P.
